@@ -663,6 +663,14 @@ class Interp:
             for x in ast.walk(b):
                 if isinstance(x, ast.Name) and isinstance(x.ctx, ast.Store) and x.id not in targets and x.id not in names and env.lookup_env(x.id) is not None:
                     names.append(x.id)
+        if not names:
+            # nothing is re-bound: the accumulator is the collection the body grows in place (x.append / x.extend / x.add / x.update)
+            for b in st.body:
+                for x in ast.walk(b):
+                    if (isinstance(x, ast.Call) and isinstance(x.func, ast.Attribute) and x.func.attr in ("append", "extend", "add", "update", "insert")
+                            and isinstance(x.func.value, ast.Name) and x.func.value.id not in targets and x.func.value.id not in names
+                            and env.lookup_env(x.func.value.id) is not None and isinstance(env.lookup_env(x.func.value.id).vars.get(x.func.value.id), (list, set, dict))):
+                        names.append(x.func.value.id)
         if len(names) != 1:
             raise Unsupported(f"loop invariant about '@carried': {len(names)} loop-carried locals {names}")
         return names[0]
